@@ -13,6 +13,7 @@
 package main
 
 import (
+	"net"
 	"bytes"
 	"encoding/json"
 	"fmt"
@@ -32,17 +33,38 @@ import (
 	"verifharness/internal/gen"
 )
 
-const (
+// ports: one block of the C08 range 20800-20899 (meta B..B+2, http B+10/11, store B+20/21, B+30); the first block
+// whose ports are all free is taken, so that two C08 checks (e.g. another agent's run on a scratch tree) can run at once
+var (
 	portMeta0 = 20800
 	portHTTP  = 20810
+	base      = fmt.Sprintf("http://127.0.0.1:%d", portHTTP)
 )
 
-var base = fmt.Sprintf("http://127.0.0.1:%d", portHTTP)
+func pickPorts() {
+	for _, b := range []int{20800, 20833, 20866} {
+		free := true
+		for _, off := range []int{0, 1, 2, 10, 11, 20, 21, 30} {
+			l, err := net.Listen("tcp", fmt.Sprintf("127.0.0.1:%d", b+off))
+			if err != nil {
+				free = false
+				break
+			}
+			l.Close()
+		}
+		if free {
+			portMeta0, portHTTP = b, b+10
+			base = fmt.Sprintf("http://127.0.0.1:%d", portHTTP)
+			return
+		}
+	}
+}
 var httpc = &http.Client{Timeout: 60 * time.Second}
 
 func logf(f string, a ...any) { fmt.Fprintf(os.Stderr, "c08: "+f+"\n", a...) }
 
 func startServer(bin, tmpl, work string, ptnum int) (*exec.Cmd, error) {
+	pickPorts()
 	if err := os.MkdirAll(work, 0o755); err != nil {
 		return nil, err
 	}
